@@ -171,5 +171,5 @@ CORPUS += [
     V("C20", "warmup-shares-the-inner-moving-average", _BLF, "        self.warmup_baseline = ExponentialBaseline(warmup_exp_beta)", "        self.warmup_baseline = baseline if isinstance(baseline, ExponentialBaseline) else ExponentialBaseline(warmup_exp_beta)", "C20.f"),
     V("C20", "epoch-callback-skipped-for-the-last-epoch", _RFF, "        self.baseline.epoch_callback(\n            self.policy,", "        if self.current_epoch < self.trainer.max_epochs - 1:\n          self.baseline.epoch_callback(\n            self.policy,", "C20.f"),
     V("C20", "warmup-factory-nests-warmups", _BLF, 'inner_baseline = kw.pop("baseline", "rollout_only")', 'inner_baseline = kw.pop("baseline", "rollout")', "C20.e"),
-    V("C17", "batched-fetch-added-to-the-parent", _DSF, "    def add_key(self, key, value):\n        return ExtraKeyDataset(self, value, key_name=key)", "    def __getitems__(self, idx):\n        return [self.data[i] for i in idx]\n\n    def add_key(self, key, value):\n        return ExtraKeyDataset(self, value, key_name=key)", "C17.f"),
+    V("C17", "batched-fetch-added-to-the-parent", _DSF, "    def __getitem__(self, idx):\n        return self.data[idx]\n", "    def __getitem__(self, idx):\n        return self.data[idx]\n\n    def __getitems__(self, idx):\n        return [self.data[i] for i in idx]\n", "C17.f"),
 ]
